@@ -12,7 +12,7 @@ func init() {
 		technique: "guarded-write rule over the CFG: every map update of the replicator's store is dominated by a tombstone lookup on the same key whose present-edge cannot reach the write; delete-path ordering; expiry-edge dominance for tombstone removal",
 		explanation: "Decides: (1) every write r.store[k] = v in the replicator is preceded on every path by a lookup r.tombstones[k] of the same key, the write is reachable only over the lookup's 'absent' edge (and unreachable from its 'present' edge), and no second write happens without a fresh lookup (loops); exempt with reason: prune's in-place compaction of an entry that already exists and snapshot restore in PreStart (before any delete can have been processed); (2) delete paths: the store entry is removed and the tombstone recorded before the tombstone is published to peers, on every path; a local delete and a peer tombstone are recorded whatever the local store holds (only a node's own echo and an undecodable key are skipped); (3) a tombstone is removed only in handlePrune and only on the edge where its age exceeds the configured TTL; (4) the read path serving peers (handleReadRequest) never writes the store.",
 		assumptions: []string{"tombstone propagation between nodes (a peer learns the tombstone later) is a distributed property; only local write discipline is decided", "time.Now monotonicity for TTL expiry"},
-		minObl:     14,
+		minObl:     18,
 		run:        runC41,
 	})
 }
